@@ -20,6 +20,10 @@ CHECKS = {
    text="Isotropic, TransverselyIsotropic and Orthotropic law classes are re-assembled from the AST and _Behavior is executed with symbolic moduli: plane-stress/plane-strain reductions, S C = I, symmetry are ring identities; SPD is a nonlinear-real query (z3/cvc5) under the admissibility conditions; Get_Pmat/Apply_Pmat are executed on a Cayley-parametrised rotation with symbolic axis lengths: P orthogonal for every rotation and every axis length, Apply_Pmat equals the Kelvin-Mandel image of the rotated 4th-order tensor.",
    note="Trusted: numpy model vt/npshim.py (allocators, sqrt, linalg.inv/det/norm, einsum on exact scalars), np.linalg.inv contract, sympy, z3/cvc5. Not covered (listed in evidence.not_attempted): Anisotropic law notation clause, heterogeneous parameter fields, lazy update (effect contract). Batched Get_Pmat shapes are bounded (e,p <= 2).",
    technique="contract-based deductive verification: symbolic execution of extracted law classes; ring identities by normal form, positivity by z3 QF_NRA"),
+ "C03": dict(level="proof", design="DESIGN.md 3/C03",
+   text="The dof-numbering and row/column index functions (_Get_assembly_e, Get_rows_e, Get_columns_e) are extracted and executed on symbolic-size integer arrays: postconditions proved by z3 for an unbounded number of elements and arbitrary connectivity, for every nodes-per-element of a supported type and dofs-per-node; Assembly() slot order on a recording receiver; row-major and permutation lemmas. The scipy-backed CSR slot map is covered by bounded run-time contract checks of the real Assembly() against a dense scatter-add (mixed groups, None slots, complex data, cached-map reuse) -- labelled bounded, not counted as proved.",
+   note="Trusted: vt/lam.py numpy model for symbolic-size arrays, mathematical integers, z3. Assumed (only cross-checked on bounded cases): scipy COO->CSR, sort_indices, searchsorted, bincount contracts. MPI_SIZE == 1.",
+   technique="contract-based deductive verification: VCs over integers/uninterpreted connectivity generated by symbolic execution of the extracted index functions, discharged by z3; bounded run-time contracts for the scipy-backed slot map"),
 }
 NOT_APPLICABLE = {
 }
